@@ -32,6 +32,12 @@ prop("C15", claimed=True, level="model_checking", engine="E-SEQ",
      note="Key universe and sizes are bounded; `limit` is checked per its documentation (a prefix of the unlimited answer with at least `limit` entries); automata are black boxes run by brute force; columnar's dictionary is exercised through C08.",
      design_ref="3/C15")
 
+prop("C03", claimed=True, level="model_checking", engine="E-SEQ",
+     technique="bounded-exhaustive enumeration of corpora x segmentations x delete sets x query trees on the real index, compared with a naive query evaluator and across collectors",
+     text="Every multiset of <= 2 (thorough 3) documents over all texts of <= 3 tokens, every contiguous segmentation, every delete subset (and the merged index), is searched with ~12000 query trees (38 leaf kinds incl. phrase / slop, phrase-prefix, typed ranges on fast and indexed-only fields, term-set, exists, fuzzy, regex; booleans of 1-3 clauses x all occurs x minimum_should_match; boost / const / dis-max; depth-2 nestings); structured corpora of 127..5000 documents put terms in all / none / one / 128 / 129 / >4096 documents. DocSetCollector, Count, Query::count, TopDocs (+ Multi / Filter collectors) must all equal the naive evaluation.",
+     note="Bounded alphabet / sizes; phrase slop is a sandwich oracle (in-order alignments must match, any alignment may); regex / fuzzy dialects restricted to a common subset; JSON and facet fields are covered in C07 / C16.",
+     design_ref="3/C03")
+
 ALL = ["C%02d" % i for i in range(1, 21)]
 REASON_TODO = "check not built yet in this revision of /verif (design in DESIGN.md section 3); will be claimed when its engine lands"
 
